@@ -8,5 +8,6 @@ CONSTANTS
  MaxC = 3
  MaxB = 1
  WChunks = {7}
-INVARIANTS TypeOK Conserved WriteIsPrefix OneRecordWithheld CutDeliversAll NeverZeroNil BufBound ErrorIsTheCut
+ Tmo = FALSE
+INVARIANTS TypeOK Conserved WriteIsPrefix OneRecordWithheld CutDeliversAll NeverZeroNil BufBound ErrorIsTheCut TmoKeepsOrder
 CHECK_DEADLOCK FALSE
